@@ -73,7 +73,8 @@ func Gen(t *rapid.T, p Profile) Spec {
 			s.Ops = append(s.Ops, Op{K: "send", From: rapid.IntRange(0, 3).Draw(t, "from")})
 		case "panic":
 			s.Ops = append(s.Ops, Op{K: "send", Panic: true, GateNext: rapid.IntRange(0, 3).Draw(t, "gate_next") == 0, From: rapid.IntRange(0, 3).Draw(t, "from"),
-				Internal: rapid.IntRange(0, 5).Draw(t, "internal") == 0})
+				Internal: rapid.IntRange(0, 5).Draw(t, "internal") == 0,
+				PanicVal: rapid.SampledFrom([]int{0, 0, 1, 2, 2, 3, 4, 5}).Draw(t, "panic_val")})
 		case "chain":
 			s.Ops = append(s.Ops, Op{K: "send", Chain: rapid.SampledFrom([]int{3, 40, 305, 330}).Draw(t, "chain"), From: rapid.IntRange(0, 3).Draw(t, "from")})
 		case "burst":
@@ -119,7 +120,7 @@ func Normalize(raw Spec, dropOrphans bool) (Spec, int) {
 					next += 1 + op.Chain
 				}
 				if !op.Panic {
-					op.GateNext, op.Internal = false, false
+					op.GateNext, op.Internal, op.PanicVal = false, false, 0
 				}
 				sim.Send(op)
 			case "gate":
